@@ -199,6 +199,11 @@ func (t *c04Typer) exprTypes(pkg *packages.Package, fd *ast.FuncDecl, e ast.Expr
 	}
 	e = ast.Unparen(e)
 	tv, ok := pkg.TypesInfo.Types[e]
+	if id, isID := e.(*ast.Ident); isID && (!ok || tv.Type == nil) {
+		if o := c04ObjOf(pkg.TypesInfo, id); o != nil { // defining identifier (named result)
+			tv.Type, ok = o.Type(), true
+		}
+	}
 	if !ok || tv.Type == nil {
 		out.unknown = "untyped expression " + types.ExprString(e)
 		return out
@@ -303,7 +308,12 @@ func (t *c04Typer) returnTypes(pkg *packages.Package, fd *ast.FuncDecl, body ast
 			return false
 		case *ast.ReturnStmt:
 			if len(s.Results) == 0 {
-				out.unknown = "bare return in " + fd.Name.Name
+				if r := c04NamedResult(fd); r != nil {
+					out.add(t.exprTypes(pkg, fd, r, env, depth))
+					out.note(pkg, t.guard(pkg, fd, s, env))
+				} else {
+					out.unknown = "bare return in " + fd.Name.Name
+				}
 				return true
 			}
 			out.add(t.exprTypes(pkg, fd, s.Results[0], env, depth))
@@ -312,6 +322,17 @@ func (t *c04Typer) returnTypes(pkg *packages.Package, fd *ast.FuncDecl, body ast
 		return true
 	})
 	return out
+}
+
+// c04NamedResult returns the identifier of the first named result of fd (nil if unnamed).
+func c04NamedResult(fd *ast.FuncDecl) *ast.Ident {
+	if fd.Type.Results == nil || len(fd.Type.Results.List) == 0 || len(fd.Type.Results.List[0].Names) == 0 {
+		return nil
+	}
+	if id := fd.Type.Results.List[0].Names[0]; id.Name != "_" {
+		return id
+	}
+	return nil
 }
 
 func c04Callee(info *types.Info, call *ast.CallExpr) types.Object {
@@ -356,6 +377,20 @@ func c04PolicyCases(c *core.Ctx, pkg *packages.Package, fd *ast.FuncDecl) (cases
 			}
 		}
 	}
+	var named types.Object
+	if id := c04NamedResult(fd); id != nil {
+		named = pkg.TypesInfo.Defs[id]
+	}
+	isNamedReturn := func(rs *ast.ReturnStmt) bool {
+		if named == nil {
+			return false
+		}
+		if len(rs.Results) == 0 {
+			return true
+		}
+		id, ok := ast.Unparen(rs.Results[0]).(*ast.Ident)
+		return ok && c04ObjOf(pkg.TypesInfo, id) == named
+	}
 	for _, cl := range sw.Body.List {
 		cc := cl.(*ast.CaseClause)
 		pc := c04PolicyCase{at: cc}
@@ -376,7 +411,29 @@ func c04PolicyCases(c *core.Ctx, pkg *packages.Package, fd *ast.FuncDecl) (cases
 		pc.label = strings.Join(labels, ",")
 		pc.set = &c04TypeSet{types: map[string]types.Type{}}
 		for _, s := range cc.Body {
-			pc.set.add(t.returnTypes(pkg, fd, s, env, 0))
+			ast.Inspect(s, func(n ast.Node) bool {
+				switch x := n.(type) {
+				case *ast.FuncLit:
+					return false
+				case *ast.ReturnStmt:
+					if isNamedReturn(x) {
+						return true // the value is what the clause assigned to the named result
+					}
+					pc.set.add(t.exprTypes(pkg, fd, x.Results[0], env, 0))
+					pc.set.note(pkg, t.guard(pkg, fd, x, env))
+				case *ast.AssignStmt:
+					if named == nil || len(x.Lhs) != len(x.Rhs) {
+						return true
+					}
+					for i, l := range x.Lhs {
+						if id, ok := l.(*ast.Ident); ok && c04ObjOf(pkg.TypesInfo, id) == named {
+							pc.set.add(t.exprTypes(pkg, fd, x.Rhs[i], env, 0))
+							pc.set.note(pkg, t.guard(pkg, fd, x, env))
+						}
+					}
+				}
+				return true
+			})
 		}
 		cases = append(cases, pc)
 	}
@@ -390,9 +447,18 @@ func c04PolicyCases(c *core.Ctx, pkg *packages.Package, fd *ast.FuncDecl) (cases
 		if _, ok := nd.(*ast.FuncLit); ok {
 			return false
 		}
-		if rs, ok := nd.(*ast.ReturnStmt); ok && len(rs.Results) > 0 {
+		if rs, ok := nd.(*ast.ReturnStmt); ok && !isNamedReturn(rs) && len(rs.Results) > 0 {
 			n++
 			outside.add(t.exprTypes(pkg, fd, rs.Results[0], env, 0))
+		}
+		// the named result assigned outside the switch: the clauses no longer tell the whole story
+		if as, ok := nd.(*ast.AssignStmt); ok && named != nil {
+			for _, l := range as.Lhs {
+				if id, ok := l.(*ast.Ident); ok && c04ObjOf(pkg.TypesInfo, id) == named {
+					n++
+					outside.unknown = "the named result is assigned outside the policy switch"
+				}
+			}
 		}
 		return true
 	})
